@@ -7,7 +7,7 @@
     ([name_at_fun]), so "the labels" is well defined. *)
 
 From DV Require Import Model.Base Model.NameCheck Model.Parser Model.Header Model.Readers
-  Spec.NameSpec Spec.PacketSpec Proofs.ListLemmas Proofs.Hoare Proofs.NameIff Proofs.ParserInv
+  Spec.NameSpec Spec.PacketSpec Spec.RecordSpec Proofs.ListLemmas Proofs.Hoare Proofs.NameIff Proofs.ParserInv
   Proofs.ParseSound Proofs.ReadersLabels.
 From Coq Require Import ZifyBool ZifyNat ZifyN.
 
